@@ -176,16 +176,60 @@ def lake_build(targets):
 
 
 def run_translators():
-    """regenerate every Gen/*.lean from the current /repo (tie T2-src)."""
+    """regenerate every Gen/*.lean from the current /repo (tie T2-src).  Every translator is run even when an earlier one
+    fails; returns (all ok, combined output, [(tool, its output)] for the tools that failed)."""
     out = ''
+    failed = []
     for tool in ('gen_dq.py', 'gen_src.py', 'gen_logic.py', 'gen_bundle.py', 'gen_conv.py', 'gen_fitspec.py'):
         if not os.path.exists(os.path.join(ROOT, 'tools', tool)):
             continue
         r = subprocess.run([sys.executable, os.path.join(ROOT, 'tools', tool), REPO], capture_output=True, text=True)
         out += r.stdout + r.stderr
         if r.returncode != 0:
-            return False, out
-    return True, out
+            failed.append((tool, r.stdout + r.stderr))
+    return not failed, out, failed
+
+
+# namespaces of the generated modules each translator writes (SmoothModel/Gen/*.lean)
+TRANSLATOR_NS = {'gen_dq.py': ['SE3Gen'], 'gen_src.py': ['CoefSrc', 'ImplSrc', 'BaseSrc'], 'gen_logic.py': ['LogicSrc'],
+                 'gen_bundle.py': ['BundleSrc', 'BundlePubSrc', 'ManifSrc', 'RnSrc'], 'gen_conv.py': ['ConvSrc'],
+                 'gen_fitspec.py': ['FitSpecSrc']}
+
+
+def props_closure(props_files):
+    """the SmoothProps files a property's theorem files consist of (closure over `import SmoothProps.X`)"""
+    seen, todo = [], list(props_files)
+    while todo:
+        f = todo.pop()
+        if f in seen or not os.path.exists(os.path.join(LEAN, f)):
+            continue
+        seen.append(f)
+        for m in re.findall(r'^import SmoothProps\.(\w+)', open(os.path.join(LEAN, f)).read(), re.M):
+            todo.append(f'SmoothProps/{m}.lean')
+    return seen
+
+
+def translator_concerns(P, tool, output):
+    """does a hard failure of translator `tool` leave an obligation of property P undischarged?
+    Yes iff (a) P's theorem files refer to a module that tool generates, and (b) the header the failure names (when it names
+    one) is among the code anchors of P in properties.jsonl.  A failure that names no header concerns every property under (a)."""
+    ns = TRANSLATOR_NS.get(tool, [])
+    txt = ''.join(open(os.path.join(LEAN, f)).read() for f in props_closure(P.props_files))
+    if not any(re.search(r'\b' + n + r'\b', txt) for n in ns):
+        return False
+    lines = [l for l in output.splitlines() if 'cannot translate' in l or 'Error' in l or 'error' in l] or output.splitlines()[-3:]
+    hdrs = set(re.findall(r'([A-Za-z_0-9]+\.hpp)', ' '.join(l[:400] for l in lines)))
+    if not hdrs:
+        return True
+    try:
+        anchors = []
+        for l in open(os.path.join(ROOT, 'properties.jsonl')):
+            d = json.loads(l)
+            if d['id'] == P.id:
+                anchors = [os.path.basename(a) for a in d['anchors']['files']]
+    except (OSError, ValueError, KeyError):
+        return True
+    return bool(hdrs & set(anchors)) or not anchors
 
 
 # ----------------------------------------------------------------------------- driver
